@@ -705,4 +705,396 @@ theorem insertOp_chain (e : Expr) (h : WellGrouped (toT e)) :
   rw [h1, embT_toT, yieldOps_toT, firstAtom_toT] at h2
   exact h2.symm
 
+
+/-! ## Part 6: the class of expressions and the three specifications -/
+
+/-- No NUL and no CR (Boolean form of `Expressible`). -/
+def exprB (v : List Char) : Bool := v.all (fun c => c != eofRune && c != '\r')
+
+theorem exprB_expressible {v : List Char} (h : exprB v = true) : Expressible v := by
+  intro c hc
+  have := List.all_eq_true.mp h c hc
+  simpa using this
+
+def topGeB (q : Nat) : Expr → Bool
+  | .binary o _ _ => decide (q ≤ o.precedence)
+  | _ => true
+
+def headOKB : List Char → Bool
+  | c :: _ => !isWhitespace c && c != eofRune
+  | [] => false
+
+theorem headOK_of_B {l : List Char} (h : headOKB l = true) : HeadOK l := by
+  cases l with
+  | nil => cases h
+  | cons c t =>
+    simp only [headOKB, Bool.and_eq_true, Bool.not_eq_true', bne_iff_ne, ne_eq] at h
+    exact ⟨c, t, rfl, h.1, h.2⟩
+
+theorem binOps_head : ∀ op ∈ binOps, headOKB op.str = true := by decide
+
+mutual
+  /-- **The printable class.** What `ParseExpr` returns and `String()` writes back unambiguously:
+  every binary node carries one of the eighteen operators and its operands are grouped as the five
+  levels demand (an unparenthesised left operand binds at least as tightly as its parent, a right
+  one strictly tighter — this is what excludes the `a / -1 * b` finding); leaves are variable
+  references, string and integer literals, parenthesised expressions. -/
+  def rtOK : Expr → Bool
+    | .binary op l r =>
+      op.isOperator && !op.isRegexOp && rtOK l && rtOK r && topGeB op.precedence l && topGeB (op.precedence + 1) r
+    | .paren e => rtOK e
+    | .call _ _ => false
+    | .varRef v t => exprB v && (t == .Unknown)
+    | .string v => exprB v
+    | .integer n => decide (0 ≤ n) && decide (n ≤ maxInt64)
+    | _ => false
+  def rtOKArgs : List Expr → Bool
+    | [] => true
+    | a :: rest => rtOK a && rtOKArgs rest
+end
+
+theorem topGeB_toT {q : Nat} {e : Expr} (h : topGeB q e = true) : TopGe q (toT e) := by
+  cases e <;> first | trivial | (simp only [topGeB, decide_eq_true_eq] at h; exact h)
+
+theorem rtOK_binary {op : Token} {l r : Expr} (h : rtOK (.binary op l r) = true) :
+    op.isOperator = true ∧ op.isRegexOp = false ∧ rtOK l = true ∧ rtOK r = true ∧
+      topGeB op.precedence l = true ∧ topGeB (op.precedence + 1) r = true := by
+  rw [rtOK] at h
+  simp only [Bool.and_eq_true, Bool.not_eq_true'] at h
+  obtain ⟨⟨⟨⟨⟨h1, h2⟩, h3⟩, h4⟩, h5⟩, h6⟩ := h
+  exact ⟨h1, h2, h3, h4, h5, h6⟩
+
+theorem rtOK_wellGrouped (e : Expr) (h : rtOK e = true) : WellGrouped (toT e) := by
+  fun_induction toT e with
+  | case1 op l r ihl ihr =>
+    obtain ⟨_, _, h3, h4, h5, h6⟩ := rtOK_binary h
+    exact ⟨topGeB_toT h5, topGeB_toT h6, ihl h3, ihr h4⟩
+  | case2 e hnb => trivial
+
+/-- An operator of the chain with the operand after it. -/
+def OpOK (p : Token × Expr) : Prop :=
+  p.1.isOperator = true ∧ p.1.isRegexOp = false ∧ rtOK p.2 = true ∧ NB p.2
+
+theorem rtOK_chain (e : Expr) (h : rtOK e = true) : rtOK (firstA e) = true ∧ ∀ p ∈ opsOf e, OpOK p := by
+  fun_induction opsOf e with
+  | case1 op l r ihl ihr =>
+    obtain ⟨h1, h2, h3, h4, _, _⟩ := rtOK_binary h
+    refine ⟨(ihl h3).1, ?_⟩
+    intro p hp
+    simp only [List.mem_append, List.mem_cons] at hp
+    rcases hp with hp | rfl | hp
+    · exact (ihl h3).2 p hp
+    · exact ⟨h1, h2, (ihr h4).1, firstA_nb r⟩
+    · exact (ihr h4).2 p hp
+  | case2 e hnb =>
+    refine ⟨?_, fun p hp => by cases hp⟩
+    rw [firstA_of_nb (fun op l r he => hnb op l r he)]; exact h
+
+theorem sepU_printOps (rest : List (Token × Expr)) (k : List Char) (hrest : ∀ p ∈ rest, p.1.isOperator = true)
+    (hk : SepC k) : SepU (printOps rest ++ k) := by
+  cases rest with
+  | nil => exact Or.inl hk
+  | cons p rest =>
+    obtain ⟨c, t, hct, h1, h2⟩ := headOK_of_B (binOps_head p.1 (isOperator_mem (hrest p (by simp))))
+    refine Or.inr ⟨c, t ++ ' ' :: (p.2.print ++ printOps rest) ++ k, ?_, h1, h2⟩
+    simp [printOps, hct]
+
+def IsFuel (f : Fail) : Prop := f = .fuel
+
+/-- `parseUnaryExpr` on the printed form of an operand of the class, followed by a separator:
+it returns the operand and stands before the separator (or runs out of fuel). -/
+def SpecU (F : Nat) : Prop := ∀ (s : PState) (a : Expr) (k : List Char), rtOK a = true → NB a → SepU k →
+  AtW s (a.print ++ k) → wp (parseUnaryExpr F) s (fun e' s' => e' = a ∧ At s' k ∧ Same s s') IsFuel
+
+/-- The loop of `ParseExpr` on the printed operators and operands. -/
+def SpecL (F : Nat) : Prop := ∀ (s : PState) (root : Expr) (rest : List (Token × Expr)) (k : List Char),
+  (∀ p ∈ rest, OpOK p) → SepC k → At s (printOps rest ++ k) →
+  wp (exprLoop F root) s
+    (fun e' s' => e' = rest.foldl (fun t p => insertOp t p.1 p.2) root ∧ At s' k ∧ Same s s') IsFuel
+
+/-- `ParseExpr` on the printed form of an expression of the class. -/
+def SpecE (F : Nat) : Prop := ∀ (s : PState) (e : Expr) (k : List Char), rtOK e = true → SepC k →
+  AtW s (e.print ++ k) → wp (parseExpr F) s (fun e' s' => e' = e ∧ At s' k ∧ Same s s') IsFuel
+
+theorem specE_step (F : Nat) (ihU : SpecU F) (ihL : SpecL F) : SpecE (F + 1) := by
+  intro s e k he hk hat
+  obtain ⟨hfirst, hops⟩ := rtOK_chain e he
+  rw [parseExpr, wp_bind]
+  rw [print_chain e, List.append_assoc] at hat
+  refine wp_mono (ihU s (firstA e) (printOps (opsOf e) ++ k) hfirst (firstA_nb e)
+    (sepU_printOps _ k (fun p hp => (hops p hp).1) hk) hat) ?_ (fun _ h => h)
+  intro a s1 ⟨ha, hat1, hsame1⟩
+  subst ha
+  refine wp_mono (ihL s1 (firstA e) (opsOf e) k hops hk hat1) ?_ (fun _ h => h)
+  intro e' s2 ⟨he', hat2, hsame2⟩
+  exact ⟨by rw [he', insertOp_chain e (rtOK_wellGrouped e he)], hat2, hsame1.trans hsame2⟩
+
+theorem specL_step (F : Nat) (ihU : SpecU F) (ihL : SpecL F) : SpecL (F + 1) := by
+  intro s root rest k hrest hk hat
+  rw [exprLoop, wp_bind]
+  cases rest with
+  | nil =>
+    obtain ⟨lx, s1, r1, hrun, hsame, hj, hat1, htok⟩ := scanIW_close s k hat hk
+    rw [wp_of_run_ok hrun]
+    have hnop : (!lx.tok.isOperator) = true := by
+      rcases htok with ⟨_, h⟩ | ⟨_, _, h, _⟩ | ⟨_, _, h, _⟩ <;> rw [h] <;> rfl
+    rw [wp_ite, if_pos hnop, wp_bind, unscan_wp, wp_pure]
+    exact ⟨rfl, hat1, hsame.trans (unsc_same s1)⟩
+  | cons p rest' =>
+    obtain ⟨hop, hnre, hok, hnb⟩ := hrest p (by simp)
+    have hat' : AtW s (p.1.str ++ ' ' :: (p.2.print ++ (printOps rest' ++ k))) := by
+      apply At.atW
+      simpa [printOps] using hat
+    obtain ⟨lx, s1, r1, hrun, htok, hlit, hj, hq, hsame⟩ := scanIW_first s _ hat'
+      ((headOK_of_B (binOps_head p.1 (isOperator_mem hop))).append _) p.1 []
+      (fun r => r.chars = ' ' :: (p.2.print ++ (printOps rest' ++ k)))
+      (fun r hr => scan_op p.1 hop r _ hr)
+      (by have := isOperator_mem hop; revert this; generalize p.1 = t; intro ht
+          simp only [binOps, List.mem_cons, List.not_mem_nil, or_false] at ht
+          rcases ht with h | h | h | h | h | h | h | h | h | h | h | h | h | h | h | h | h | h <;> subst h <;>
+            exact ⟨by decide, by decide, by decide⟩)
+    rw [wp_of_run_ok hrun]
+    have hnop : ¬ (!lx.tok.isOperator) = true := by rw [htok, hop]; simp
+    have hnre' : ¬ lx.tok.isRegexOp = true := by rw [htok, hnre]; simp
+    rw [wp_ite, if_neg hnop]
+    dsimp only
+    rw [wp_ite, if_neg hnre', wp_bind]
+    have hrest' : ∀ q ∈ rest', OpOK q := fun q hq => hrest q (by simp [hq])
+    refine wp_mono (ihU s1 p.2 (printOps rest' ++ k) hok hnb
+      (sepU_printOps _ k (fun q hq => (hrest' q hq).1) hk) ⟨r1, Or.inl ⟨hj.1, hj.2.2⟩, Or.inr hq⟩) ?_ (fun _ h => h)
+    intro a s2 ⟨ha, hat2, hsame2⟩
+    subst ha
+    refine wp_mono (ihL s2 _ rest' k hrest' hk hat2) ?_ (fun _ h => h)
+    intro e' s3 ⟨he', hat3, hsame3⟩
+    exact ⟨by rw [he', htok]; rfl, hat3, (hsame.trans hsame2).trans hsame3⟩
+
+
+/-- The token at a separator is none of those that would continue an operand. -/
+theorem scan_sep_tok (r : Cursor) (k : List Char) (h : Rem r k) (hk : SepU k) :
+    (scan r).1.tok = .EOF ∨ (scan r).1.tok = .RPAREN ∨ (scan r).1.tok = .COMMA ∨ (scan r).1.tok = .WS := by
+  rcases hk with hk | ⟨c, t, rfl, hc1, hc2⟩
+  · rcases scan_close r k h hk with ⟨_, h⟩ | ⟨_, _, h, _⟩ | ⟨_, _, h, _⟩
+    · exact Or.inl h
+    · exact Or.inr (Or.inl h)
+    · exact Or.inr (Or.inr (Or.inl h))
+  · exact Or.inr (Or.inr (Or.inr (scan_space r c t hc1 hc2 (h.chars_of_cons (by decide))).1))
+
+theorem natDigits_head (n : Nat) : HeadOK (natDigits n) := by
+  have hne := natDigits_ne_nil n
+  have hd := natDigits_all_digits n
+  cases h : natDigits n with
+  | nil => exact absurd h hne
+  | cons c t =>
+    have hc : isDigit c = true := hd c (by rw [h]; simp)
+    exact ⟨c, t, rfl, (isDigit_facts hc).1, isDigit_ne_eof hc⟩
+
+theorem specU_step (F : Nat) (ihE : SpecE F) (_ihU : SpecU F) : SpecU (F + 1) := by
+  intro s a k ha hnb hk hat
+  cases a with
+  | binary op l r => exact absurd rfl (hnb op l r)
+  | paren e =>
+    have he : rtOK e = true := by rw [rtOK] at ha; exact ha
+    have hat' : AtW s ('(' :: (e.print ++ ')' :: k)) := by simpa [print_paren] using hat
+    obtain ⟨lx, s1, r1, hrun, htok, _, hj, hq, hsame⟩ := scanIW_first s _ hat'
+      ⟨'(', _, rfl, by decide, by decide⟩ .LPAREN [] (fun r => r.chars = e.print ++ ')' :: k)
+      (fun r hr => by
+        obtain ⟨h1, h2⟩ := scan_lparen r _ hr
+        have hl : (scan r).1.lit = [] := by
+          obtain ⟨c1, _, _⟩ := Cursor.chars_cons hr
+          unfold scan; rw [c1]; rfl
+        exact ⟨h1, hl, h2⟩)
+      ⟨by decide, by decide, by decide⟩
+    rw [parseUnaryExpr, wp_bind, wp_of_run_ok hrun, wp_ite, if_pos htok, wp_bind]
+    refine wp_mono (ihE s1 e (')' :: k) he (Or.inr ⟨k, Or.inl rfl⟩) ⟨r1, Or.inl ⟨hj.1, hj.2.2⟩, Or.inl hq⟩) ?_
+      (fun _ h => h)
+    intro e' s2 ⟨he', hat2, hsame2⟩
+    subst he'
+    obtain ⟨lx2, s3, r3, hrun3, hsame3, hj3, _, htok3⟩ := scanIW_close s2 (')' :: k) hat2 (Or.inr ⟨k, Or.inl rfl⟩)
+    rw [wp_bind, wp_of_run_ok hrun3]
+    rcases htok3 with ⟨h, _⟩ | ⟨t, ht, htk, hch⟩ | ⟨t, ht, _, _⟩
+    · cases h
+    · simp only [List.cons.injEq, true_and] at ht
+      subst ht
+      dsimp only
+      rw [wp_ite, if_neg (by rw [htk]; simp), wp_pure]
+      exact ⟨rfl, hj3.at (Or.inl hch), (hsame.trans hsame2).trans hsame3⟩
+    · cases ht
+  | string v =>
+    have hv : Expressible v := exprB_expressible (by rw [rtOK] at ha; exact ha)
+    have hat' : AtW s (quoteString v ++ k) := by simpa [print_string] using hat
+    obtain ⟨lx, s1, r1, hrun, htok, hlit, hj, hq, hsame⟩ := scanIW_first s _ hat'
+      ((headOK_quoteString v).append k) .STRING v (fun r => r.chars = k)
+      (fun r hr => scan_string_text r v k hv hr) ⟨by decide, by decide, by decide⟩
+    rw [wp_of_run_ok (unary_string F s s1 lx r1 hrun hj htok)]
+    exact ⟨by rw [hlit], hj.at (Or.inl hq), hsame⟩
+  | integer n =>
+    rw [rtOK] at ha
+    simp only [Bool.and_eq_true, decide_eq_true_eq] at ha
+    obtain ⟨m, rfl⟩ := Int.eq_ofNat_of_zero_le ha.1
+    have hpr : (Expr.integer (m : Int)).print = natDigits m := by
+      rw [print_integer]; unfold intDigits; simp
+    rw [hpr] at hat
+    obtain ⟨x, t, rfl, hx1, hx2, hx3, _, _, _⟩ := sepU_head_facts hk
+    obtain ⟨lx, s1, r1, hrun, htok, hlit, hj, hq, hsame⟩ := scanIW_first s _ hat
+      ((natDigits_head m).append _) .INTEGER (natDigits m) (fun r => r.chars = x :: t)
+      (fun r hr => scan_digits r (natDigits m) x t (natDigits_ne_nil m) (natDigits_all_digits m) hx1 hx2 hx3 hr)
+      ⟨by decide, by decide, by decide⟩
+    rw [wp_of_run_ok (unary_integer F s s1 lx r1 m hrun hj htok hlit ha.2)]
+    exact ⟨rfl, hj.at (Or.inl hq), hsame⟩
+  | varRef v t =>
+    rw [rtOK] at ha
+    simp only [Bool.and_eq_true, beq_iff_eq] at ha
+    obtain ⟨hv, ht⟩ := ha
+    subst ht
+    have hv' : Expressible v := exprB_expressible hv
+    have hat' : AtW s (quoteIdent [v] ++ k) := by simpa [print_varRef] using hat
+    obtain ⟨lx, s1, r1, hrun, htok, hlit, hj, hq, hsame⟩ := scanIW_first s _ hat'
+      ((headOK_quoteIdent v).append k) .IDENT v (fun r => Rem r k)
+      (fun r hr => scan_ident_text r v k hv' hk.idEnd hr) ⟨by decide, by decide, by decide⟩
+    have hsep := scan_sep_tok r1 k hq hk
+    obtain ⟨s', hrun', hlook, hsame'⟩ := unary_ident_plain F s s1 lx r1 hrun hj htok
+      (by rcases hsep with h | h | h | h <;> rw [h] <;> decide)
+      (by rcases hsep with h | h | h | h <;> rw [h] <;> decide)
+      (by rcases hsep with h | h | h | h <;> rw [h] <;> decide)
+      (by rcases hsep with h | h | h | h <;> rw [h] <;> decide)
+    rw [wp_of_run_ok hrun']
+    exact ⟨by rw [hlit], ⟨r1, hlook, hq⟩, hsame.trans hsame'⟩
+  | _ => simp [rtOK] at ha
+
+/-- The three specifications hold for every amount of fuel. -/
+theorem rt_specs (F : Nat) : SpecE F ∧ SpecL F ∧ SpecU F := by
+  induction F with
+  | zero =>
+    refine ⟨?_, ?_, ?_⟩
+    · intro s e k _ _ _; rw [parseExpr, wp_throw]; rfl
+    · intro s root rest k _ _ _; rw [exprLoop, wp_throw]; rfl
+    · intro s a k _ _ _ _; rw [parseUnaryExpr, wp_throw]; rfl
+  | succ F ih =>
+    obtain ⟨ihE, ihL, ihU⟩ := ih
+    exact ⟨specE_step F ihU ihL, specL_step F ihU ihL, specU_step F ihE ihU⟩
+
+
+/-! ## Part 7: the whole text -/
+
+def NoCR (l : List Char) : Prop := ∀ c ∈ l, c ≠ '\r'
+
+theorem NoCR.append {a b : List Char} (ha : NoCR a) (hb : NoCR b) : NoCR (a ++ b) := by
+  intro c hc
+  rcases List.mem_append.mp hc with h | h
+  · exact ha c h
+  · exact hb c h
+
+theorem noCR_flatMap_esc (q : Char) (hq : q ≠ '\r') (v : List Char) (hv : Expressible v) :
+    NoCR (v.flatMap (esc q)) := by
+  intro c hc
+  obtain ⟨x, hx, hcx⟩ := List.mem_flatMap.mp hc
+  exact esc_no_cr q x hq (hv x hx).2 c hcx
+
+theorem noCR_quoteString (v : List Char) (hv : Expressible v) : NoCR (quoteString v) := by
+  rw [C06.quoteString_eq]
+  intro c hc
+  simp only [List.mem_cons, List.mem_append, List.not_mem_nil, or_false] at hc
+  rcases hc with rfl | hc | rfl
+  · decide
+  · exact noCR_flatMap_esc '\'' (by decide) v hv c hc
+  · decide
+
+theorem noCR_quoteIdent (v : List Char) (hv : Expressible v) : NoCR (quoteIdent [v]) := by
+  rw [C06.quoteIdent_single]
+  split
+  · intro c hc
+    simp only [List.mem_cons, List.mem_append, List.not_mem_nil, or_false] at hc
+    rcases hc with rfl | hc | rfl
+    · decide
+    · exact noCR_flatMap_esc '"' (by decide) v hv c hc
+    · decide
+  · exact noCR_flatMap_esc '"' (by decide) v hv
+
+theorem noCR_natDigits (n : Nat) : NoCR (natDigits n) := by
+  intro c hc
+  have := natDigits_all_digits n c hc
+  intro he; subst he; revert this; decide
+
+theorem binOps_noCR : ∀ op ∈ binOps, op.str.all (fun c => c != '\r') = true := by decide
+
+/-- The printed form of an expression of the class contains no carriage return, so the reader
+delivers it unchanged. -/
+theorem print_noCR : ∀ e : Expr, rtOK e = true → NoCR e.print
+  | .binary op l r, h => by
+    obtain ⟨h1, _, h3, h4, _, _⟩ := rtOK_binary h
+    rw [print_binary]
+    have hop : NoCR op.str := by
+      intro c hc
+      have := List.all_eq_true.mp (binOps_noCR op (isOperator_mem h1)) c hc
+      simpa using this
+    have hsp : NoCR [' '] := by intro c hc; simp at hc; subst hc; decide
+    exact ((((print_noCR l h3).append hsp).append hop).append hsp).append (print_noCR r h4)
+  | .paren e, h => by
+    have he : rtOK e = true := by rw [rtOK] at h; exact h
+    rw [print_paren]
+    have h1 : NoCR ['('] := by intro c hc; simp at hc; subst hc; decide
+    have h2 : NoCR [')'] := by intro c hc; simp at hc; subst hc; decide
+    exact (h1.append (print_noCR e he)).append h2
+  | .string v, h => by
+    rw [print_string]
+    exact noCR_quoteString v (exprB_expressible (by rw [rtOK] at h; exact h))
+  | .integer n, h => by
+    rw [rtOK] at h
+    simp only [Bool.and_eq_true, decide_eq_true_eq] at h
+    obtain ⟨m, rfl⟩ := Int.eq_ofNat_of_zero_le h.1
+    have hpr : (Expr.integer (m : Int)).print = natDigits m := by
+      rw [print_integer]; unfold intDigits; simp
+    rw [hpr]; exact noCR_natDigits m
+  | .varRef v t, h => by
+    rw [rtOK] at h
+    simp only [Bool.and_eq_true, beq_iff_eq] at h
+    obtain ⟨hv, ht⟩ := h
+    subst ht
+    rw [print_varRef]
+    simpa using noCR_quoteIdent v (exprB_expressible hv)
+  | .call _ _, h => by simp [rtOK] at h
+  | .distinct _, h => by simp [rtOK] at h
+  | .wildcard _, h => by simp [rtOK] at h
+  | .regex _, h => by simp [rtOK] at h
+  | .number _, h => by simp [rtOK] at h
+  | .unsigned _, h => by simp [rtOK] at h
+  | .boolean _, h => by simp [rtOK] at h
+  | .duration _, h => by simp [rtOK] at h
+  | .time _, h => by simp [rtOK] at h
+  | .nil, h => by simp [rtOK] at h
+  | .list _, h => by simp [rtOK] at h
+  | .boundParam _, h => by simp [rtOK] at h
+
+/-- **Print → parse.** For every expression `e` of the class, `ParseExpr` on the text `e.String()`
+returns `e` — whatever the bound parameters and the lower-casing table. -/
+theorem parseExprText_print (e : Expr) (h : rtOK e = true) (params : List (Str × BoundValue))
+    (tbl : List (Char × Char)) : parseExprText e.print params tbl = .ok e := by
+  have hch : (PState.init e.print params tbl).r.chars = e.print ++ [eofRune] := by
+    show (Cursor.ofRunes e.print).chars = _
+    rw [chars_ofRunes]
+    have := foldCR_append_of_no_cr e.print [] (print_noCR e h)
+    rw [List.append_nil] at this
+    rw [this]; simp [foldCR]
+  have hat : AtW (PState.init e.print params tbl) (e.print ++ [eofRune]) :=
+    ⟨_, Or.inl ⟨rfl, rfl⟩, Or.inl hch⟩
+  have hwp := (rt_specs (fuelFor e.print)).1 _ e [eofRune] h (Or.inl rfl) hat
+  have htot := parseExprText_total e.print params tbl
+  unfold parseExprText at htot ⊢
+  unfold wp at hwp
+  show (Prod.fst <$> (parseExpr (fuelFor e.print)).run (PState.init e.print params tbl)) = .ok e
+  change match (Prod.fst <$> (parseExpr (fuelFor e.print)).run (PState.init e.print params tbl)) with
+    | .ok _ => True
+    | .error f => f.isErr at htot
+  cases hr : (parseExpr (fuelFor e.print)).run (PState.init e.print params tbl) with
+  | error f =>
+    rw [hr] at hwp htot
+    have hf : f = .fuel := hwp
+    subst hf
+    exact absurd htot (by intro h; exact h)
+  | ok p =>
+    rw [hr] at hwp
+    obtain ⟨he, _, _⟩ := hwp
+    show Except.ok p.1 = Except.ok e
+    rw [he]
+
 end InfluxQL.RT
